@@ -132,10 +132,18 @@ def run_shard(args):
                     clean = True
             except Exception:
                 pass
-        files = {"test_a.py": src}
+        name = "test_a.py"
+        files = {}
         pp = pyproject(o)
         if pp:
             files["pyproject.toml"] = pp
+            if rng.random() < 0.3:
+                # monorepo layout: the test lives in a sub-package whose own pyproject.toml has no [tool.black]
+                # section; black (and `black --check`) keeps searching upwards and uses the parent's options
+                name = "pkg/test_a.py"
+                files["pkg/pyproject.toml"] = '[project]\nname = "pkg"\nversion = "1"\n'
+                C["nested_pyproject_layouts"] = C.get("nested_pyproject_layouts", 0) + 1
+        files[name] = src
         C["files"] += 1
         okey = ",".join(f"{k}={v}" for k, v in (o or {"none": 1}).items())
         C["options"][okey] = C["options"].get(okey, 0) + 1
@@ -154,7 +162,7 @@ def run_shard(args):
                 k = str((res.collect_exc or res.apply_exc)[::2])
                 C["crash_kinds"][k] = C["crash_kinds"].get(k, 0) + 1
                 continue
-            new = res.files_after["test_a.py"].decode()
+            new = res.files_after[name].decode()
             out["evaluations"] += 1
             changed = new != src
             kinds = sorted({k for s in res.sites for k in s.get("kinds", [])})
